@@ -111,7 +111,9 @@ type c18RigPeer struct {
 type c18PeerRig struct {
 	srv      *p2p.VerifServer
 	st       *p2p.VerifPeerState
-	hostIPs  []string
+	hostIPs  []string       // admission keys: what SplitHostPort(sp.Addr()) yields; index = the model's host
+	keyIdx   map[string]int // key -> index in hostIPs
+	specs    []string       // address texts the generators index (several textual families)
 	groupIdx map[string]int
 	groups   []string
 	port     int
@@ -126,26 +128,68 @@ type c18PeerRig struct {
 }
 
 func c18HostIP(i, ngroups int) string {
-	// routable IPv4; /16 group = 50+(i mod ngroups); host 3 of small universes is RFC1918 ("unroutable" group)
-	if ngroups <= 3 && i == 3 {
-		return "10.0.0.9"
-	}
+	// routable IPv4; /16 group = 50+(i mod ngroups)
 	return fmt.Sprintf("%d.1.%d.7", 50+i%ngroups, i/ngroups+1)
 }
 
+// c18FamilySpecs: the small universe. Peer addresses in several textual families; the code keys
+// connectionCount / banned by the host part of sp.Addr() as text, so each distinct text is a host
+// of its own for the model:
+//   IPv4 (two hosts in one /16, one in another, one RFC1918), routable IPv6 in lower and in upper
+//   case (an outbound peer keeps the text it was dialled with; an inbound one gets the canonical
+//   text of its socket address), IPv6 link-local with two different zones, IPv4-mapped IPv6
+//   (inbound: canonical dotted quad).
+var c18FamilySpecs = []string{"50.1.1.7", "51.1.1.7", "50.1.2.7", "10.0.0.9", "2a01:4f8::1", "2A01:4F8::1", "fe80::1%eth0", "fe80::1%lo", "::ffff:52.1.1.7"}
+
+// c18SpecTCP is the socket address of an inbound connection from `spec`.
+func c18SpecTCP(spec string, port int) *net.TCPAddr {
+	zone := ""
+	if i := strings.Index(spec, "%"); i >= 0 {
+		spec, zone = spec[:i], spec[i+1:]
+	}
+	return &net.TCPAddr{IP: net.ParseIP(spec), Port: port, Zone: zone}
+}
+
 func c18NewPeerRig(nhosts, ngroups int) *c18PeerRig {
-	nop := zerolog.Nop()
-	r := &c18PeerRig{srv: p2p.VerifNewServer(c18BanTicks*c18Tick, &nop), st: p2p.VerifNewPeerState(), groupIdx: map[string]int{},
-		peers: map[string]*c18RigPeer{}, banEnd: map[int]int{}, port: 20000, valid: true}
+	if ngroups <= 3 {
+		return c18NewPeerRigSpecs(c18FamilySpecs)
+	}
+	var specs []string
 	for i := 0; i < nhosts; i++ {
-		ip := c18HostIP(i, ngroups)
-		r.hostIPs = append(r.hostIPs, ip)
-		// fix group indices up front, in host order, so that they do not depend on the history
-		key := addrmgr.GroupKey(wire.NewNetAddressIPPort(net.ParseIP(ip), 8333, 0))
+		specs = append(specs, c18HostIP(i, ngroups))
+	}
+	return c18NewPeerRigSpecs(specs)
+}
+
+func c18NewPeerRigSpecs(specs []string) *c18PeerRig {
+	nop := zerolog.Nop()
+	r := &c18PeerRig{srv: p2p.VerifNewServer(c18BanTicks*c18Tick, &nop), st: p2p.VerifNewPeerState(), groupIdx: map[string]int{}, keyIdx: map[string]int{},
+		peers: map[string]*c18RigPeer{}, banEnd: map[int]int{}, port: 20000, valid: true, specs: specs}
+	// host and group indices are fixed up front so that they do not depend on the history:
+	// first the texts themselves (what an outbound peer is keyed by), then the canonical socket texts
+	addKey := func(k string) {
+		if _, ok := r.keyIdx[k]; !ok {
+			r.keyIdx[k] = len(r.hostIPs)
+			r.hostIPs = append(r.hostIPs, k)
+		}
+	}
+	addGroup := func(ip net.IP) {
+		key := addrmgr.GroupKey(wire.NewNetAddressIPPort(ip, 8333, 0))
 		if _, ok := r.groupIdx[key]; !ok {
 			r.groupIdx[key] = len(r.groups)
 			r.groups = append(r.groups, key)
 		}
+	}
+	for _, sp := range specs {
+		addKey(sp)
+	}
+	for _, sp := range specs {
+		h, _, _ := net.SplitHostPort(c18SpecTCP(sp, 1).String())
+		addKey(h)
+	}
+	for _, sp := range specs {
+		addGroup(net.ParseIP(sp)) // NewOutboundPeer: net.ParseIP(host) — nil for a zoned text
+		addGroup(c18SpecTCP(sp, 1).IP)
 	}
 	mk := func(msgs ...wire.Message) []byte {
 		var b bytes.Buffer
@@ -178,8 +222,8 @@ func (r *c18PeerRig) newPeer(handle, kind string, host int, vk bool, script []by
 // newPeerWith waits for `versions` OnVersion callbacks before returning.
 func (r *c18PeerRig) newPeerWith(handle, kind string, host int, vk bool, script []byte, onVersion func(*c18RigPeer), versions int) (*c18RigPeer, error) {
 	r.port++
-	ip := r.hostIPs[host]
-	addr := net.JoinHostPort(ip, strconv.Itoa(r.port))
+	spec := r.specs[host]
+	addr := net.JoinHostPort(spec, strconv.Itoa(r.port))
 	lb := &bytes.Buffer{}
 	lg := zerolog.New(lb).Level(zerolog.DebugLevel)
 	nop := zerolog.Nop()
@@ -212,7 +256,7 @@ func (r *c18PeerRig) newPeerWith(handle, kind string, host int, vk bool, script 
 	if !vk {
 		script = nil
 	}
-	conn := c18NewMemConn(&net.TCPAddr{IP: net.ParseIP(ip), Port: r.port}, script)
+	conn := c18NewMemConn(c18SpecTCP(spec, r.port), script)
 	p.AssociateConnection(conn)
 	gone := make(chan struct{})
 	go func() { p.WaitForDisconnect(); close(gone) }()
@@ -230,12 +274,21 @@ func (r *c18PeerRig) newPeerWith(handle, kind string, host int, vk bool, script 
 		}
 	}
 	rp.id = rp.sp.ID()
+	key, _, err := net.SplitHostPort(rp.sp.Addr())
+	if err != nil {
+		return nil, fmt.Errorf("peer %s: address %q does not split", handle, rp.sp.Addr())
+	}
+	ki, ok := r.keyIdx[key]
+	if !ok {
+		return nil, fmt.Errorf("peer %s: unexpected admission key %q", handle, key)
+	}
+	rp.host = ki
 	g := "?"
 	if na := rp.sp.NA(); na != nil {
 		g = addrmgr.GroupKey(na)
 	}
-	gi, ok := r.groupIdx[g]
-	if !ok {
+	gi, okg := r.groupIdx[g]
+	if !okg {
 		return nil, fmt.Errorf("peer %s: unexpected group key %q", handle, g)
 	}
 	rp.group = gi
@@ -433,12 +486,16 @@ func (r *c18PeerRig) run(c *Ctx, ops []string, o *c18Oracle) ([]c18PeerStepOut, 
 			if len(w) != 6 {
 				return out, fmt.Errorf("bad op %q", op)
 			}
-			host, _ := strconv.Atoi(w[3])
+			spec, _ := strconv.Atoi(w[3])
 			vk := w[4] == "1"
-			p, err := r.newPeer(w[5], w[2], host, vk, r.hsVerack, nil)
+			if spec >= len(r.specs) {
+				return out, fmt.Errorf("address %d outside the universe in %q", spec, op)
+			}
+			p, err := r.newPeer(w[5], w[2], spec, vk, r.hsVerack, nil)
 			if err != nil {
 				return out, err
 			}
+			host := p.host // the host the code keys on: SplitHostPort(sp.Addr())
 			// assumptions of the theorems: fresh id, version known for outbound peers
 			for _, q := range r.peers {
 				if q != p && q.admitted && q.id == p.id {
@@ -525,15 +582,19 @@ func (r *c18PeerRig) run(c *Ctx, ops []string, o *c18Oracle) ([]c18PeerStepOut, 
 			}
 			emit(op, fmt.Sprintf("peer done %s %d %d %d %d", p.kind, p.host, p.group, p.id, vkb), "done "+r.counters(p.host, p.group))
 		case "ban":
-			host, _ := strconv.Atoi(w[2])
+			spec, _ := strconv.Atoi(w[2])
+			if spec >= len(r.specs) {
+				return out, fmt.Errorf("address %d outside the universe in %q", spec, op)
+			}
+			host := r.keyIdx[r.specs[spec]]
 			// handleBanPeerMsg takes a *peer.Peer and reads only its address
-			bp, err := peer.NewOutboundPeer(&peer.Config{Log: func() *zerolog.Logger { l := zerolog.Nop(); return &l }(), ChainParams: &chaincfg.MainNetParams}, net.JoinHostPort(r.hostIPs[host], "8333"))
+			bp, err := peer.NewOutboundPeer(&peer.Config{Log: func() *zerolog.Logger { l := zerolog.Nop(); return &l }(), ChainParams: &chaincfg.MainNetParams}, net.JoinHostPort(r.specs[spec], "8333"))
 			if err != nil {
 				return out, err
 			}
 			p2p.VerifBanPeer(r.srv, r.st, bp)
 			r.banEnd[host] = r.tick + c18BanTicks
-			emit(op, op, "banned")
+			emit(op, fmt.Sprintf("peer ban %d", host), "banned")
 		case "clock":
 			dt, _ := strconv.Atoi(w[2])
 			p2p.VerifAdvanceClock(r.st, time.Duration(dt)*c18Tick)
@@ -543,6 +604,8 @@ func (r *c18PeerRig) run(c *Ctx, ops []string, o *c18Oracle) ([]c18PeerStepOut, 
 			p2p.VerifSetShutdown(r.srv)
 			r.shutdown = true
 			emit(op, op, "shutdown")
+		case "universe":
+			// handled by the caller (which address universe the rig is built with)
 		case "dump":
 			emit(op, fmt.Sprintf("peer dump %d %d", len(r.hostIPs), len(r.groups)), r.dump())
 		default:
@@ -563,9 +626,19 @@ type c18PeerHistory struct {
 }
 
 func c18GenPeerHistory(rng *rand.Rand, n int, style string) c18PeerHistory {
-	h := c18PeerHistory{name: style, nhosts: 5, ngroups: 2}
+	h := c18PeerHistory{name: style, nhosts: len(c18FamilySpecs), ngroups: 2}
+	h.ops = append(h.ops, "peer universe small")
 	if style == "wide" {
 		h.nhosts, h.ngroups = 30, 7
+		h.ops[0] = "peer universe wide"
+	}
+	// a few addresses are busier than the rest, so that the per-host limit is reached
+	hot := rng.Perm(h.nhosts)[:3]
+	pick := func() int {
+		if style != "wide" && rng.Intn(100) < 55 {
+			return hot[rng.Intn(len(hot))]
+		}
+		return rng.Intn(h.nhosts)
 	}
 	type live struct {
 		handle string
@@ -590,16 +663,16 @@ func c18GenPeerHistory(rng *rand.Rand, n int, style string) c18PeerHistory {
 			if x < 15 {
 				k = kinds[rng.Intn(4)]
 			}
-			add(k, rng.Intn(h.nhosts), 1)
+			add(k, pick(), 1)
 		case style == "wide" && len(made) < 170 && x < 80:
-			add(kinds[rng.Intn(4)], rng.Intn(h.nhosts), 1)
+			add(kinds[rng.Intn(4)], pick(), 1)
 		case x < 45:
 			vk := 1
 			if style == "accident" && rng.Intn(4) == 0 {
 				vk = 0
 				h.accident = true
 			}
-			add(kinds[rng.Intn(len(kinds))], rng.Intn(h.nhosts), vk)
+			add(kinds[rng.Intn(len(kinds))], pick(), vk)
 		case x < 75 && len(made) > 0:
 			// done: mostly peers not yet done (admitted or refused), sometimes a second time
 			var cand []*live
@@ -615,7 +688,7 @@ func c18GenPeerHistory(rng *rand.Rand, n int, style string) c18PeerHistory {
 			l.done = true
 			h.ops = append(h.ops, "peer done "+l.handle)
 		case x < 82:
-			h.ops = append(h.ops, fmt.Sprintf("peer ban %d", rng.Intn(h.nhosts)))
+			h.ops = append(h.ops, fmt.Sprintf("peer ban %d", pick()))
 		case x < 92:
 			dts := []int{1, 1, 2, 5, 11, 12, 23, 24, 25, 48}
 			h.ops = append(h.ops, fmt.Sprintf("peer clock %d", dts[rng.Intn(len(dts))]))
@@ -640,7 +713,7 @@ func c18GenPeerHistory(rng *rand.Rand, n int, style string) c18PeerHistory {
 	}
 	h.ops = append(h.ops, "peer dump")
 	if !shutdown {
-		for i := 0; i < h.nhosts && i < 6; i++ {
+		for i := 0; i < h.nhosts && i < 10; i++ {
 			next++
 			h.ops = append(h.ops, fmt.Sprintf("peer add in %d 1 #p%d", i, next))
 		}
